@@ -312,7 +312,7 @@ func (s *Seq) opSearchDelete(op *Op) {
 			s.fail("search", "search-delete-failed", "%s: failed: %v", ctx, err)
 		}
 		for _, l := range setList(exp) {
-			s.M.Delete(l)
+			s.modelDelete(l)
 		}
 		if len(exp) > 0 {
 			s.stat("probe:search-delete-nonempty")
@@ -383,10 +383,13 @@ func (s *Seq) opCollect(op *Op) {
 	if s.step-h.step > 1 {
 		s.stat("probe:held-across-writes")
 	}
+	// objects that matched and were never deleted since must be returned;
+	// one that was deleted meanwhile (even if stored again later under the same
+	// identifier) may be reported as an error or omitted
 	stillLive := map[int]bool{}
 	gone := 0
 	for _, l := range setList(h.expect) {
-		if _, live := s.M.Objs[l]; live {
+		if _, live := s.M.Objs[l]; live && !h.deleted[l] {
 			stillLive[l] = true
 		} else {
 			gone++
